@@ -116,8 +116,26 @@ func shimOf(y yubiagent.YubiAgent) *shimagent.Server {
 
 // connect serves a new client connection of the yubiagent server and returns the client.
 func connect(y yubiagent.YubiAgent) (yubiagent.YubiAgent, net.Conn) {
+	return connectWith(y, func(r string) { globalPanics.Store(r) })
+}
+
+// globalPanics: a panic of ServeAgent on some connection of a scenario that has no handler of its own
+var globalPanics atomic.Value
+
+// connectWith: as connect; a panic inside ServeAgent (which would end the real agent process) is
+// handed to onPanic instead of ending the harness
+func connectWith(y yubiagent.YubiAgent, onPanic func(string)) (yubiagent.YubiAgent, net.Conn) {
 	cc, sc := socketPair()
-	go func() { yubiagent.ServeAgent(y, sc); sc.Close() }()
+	go func() {
+		defer func() {
+			if r := recover(); r != nil {
+				onPanic(fmt.Sprint(r))
+				sc.Close()
+			}
+		}()
+		yubiagent.ServeAgent(y, sc)
+		sc.Close()
+	}()
 	cl, err := yubiagent.NewClientFromConn(cc)
 	if err != nil {
 		panic(err)
@@ -136,6 +154,10 @@ func runCond(args []string) []string {
 	}
 	defer y.Close()
 	shim := shimOf(y)
+	var crashed atomic.Value
+	connect := func(y yubiagent.YubiAgent) (yubiagent.YubiAgent, net.Conn) {
+		return connectWith(y, func(r string) { crashed.Store(r) })
+	}
 	released := make(chan int, 64)
 	waitingOn := map[int]int{} // tid -> code, still believed blocked
 	var conns []net.Conn
@@ -240,6 +262,9 @@ func runCond(args []string) []string {
 		} else {
 			out = append(out, show(got))
 		}
+	}
+	if r := crashed.Load(); r != nil {
+		return []string{"crash", hx.HexS(r.(string))}
 	}
 	return []string{strings.Join(out, "")}
 }
